@@ -49,7 +49,7 @@ COMPONENTS = {
     "oracle": ["the same call made in a pristine forked interpreter (dependency slice only)", "deep before/after snapshots of arguments"],
 }
 PROBES = ["same_name_different_definition", "failed_call_then_reuse", "shared_named_dict", "parsed_reused",
-          "writer_handle", "append_call", "reader_schema_call", "unknown_reference_call", "generate_call", "load_call",
+          "writer_handle", "append_call", "metadata_argument", "schema_edited_in_place", "reader_schema_call", "unknown_reference_call", "generate_call", "load_call",
           "json_call", "slice_smaller_than_prefix"]
 
 
@@ -176,6 +176,9 @@ class History:
         for i in range(3):
             self.base[f"NS{i}"] = {}
             self.dicts.append(f"NS{i}")
+        # user metadata dictionaries handed to container writers (one carries another file's reserved keys)
+        self.base["M0"] = {"owner": "history"}
+        self.base["M1"] = {"k": "v", "avro.codec": "bzip2", "avro.schema": "\"string\""}
         # a few generated schemas with data
         for i in range(2):
             s, _ = gen.schema(ch, max_depth=2, max_fields=3, recursion=False)
@@ -198,7 +201,7 @@ class History:
         self.focus = ch.pick(groups)
         self.focus_pct = ch.pick([0, 60, 90])
         # swarm: every history has its own operation mix (some kinds switched off, some tripled)
-        base_w = [6, 5, 4, 3, 3, 2, 3, 2, 2, 2, 2, 4, 1, 1, 3, 1]
+        base_w = [6, 5, 4, 3, 3, 2, 3, 2, 2, 2, 2, 4, 1, 1, 3, 2]
         self.weights = [max(1 if i < 2 else 0, w * ch.pick([0, 1, 1, 3])) for i, w in enumerate(base_w)]
         if self.focus == ["UAB_1", "UAB_2"]:
             self.weights[11] = max(self.weights[11], 12)   # Writer handles: where a shared default options dict would show
@@ -302,7 +305,11 @@ class History:
                     "sync_interval": ch.pick([1, 30, 16000]), "sync_marker": b"\x01" * 16}
             if ch.chance(20):
                 opts["validator"] = True
-            return {"op": "cwrite", "schema": sref, "records": rname, "out": out, "opts": opts}
+            d = {"op": "cwrite", "schema": sref, "records": rname, "out": out, "opts": opts}
+            if ch.chance(30):
+                d["meta"] = ch.pick(["M0", "M1"])
+                self.ctx.probe("metadata_argument")
+            return d
         if k == 4 and self.bytes_:
             cands = [b for b in self.bytes_ if b[2] == "c"]
             if cands:
@@ -375,8 +382,12 @@ class History:
             out = self.new("W")
             self.handles.append((out, key))
             self.ctx.probe("writer_handle")
-            return {"op": "writer_handle", "action": "create", "schema": sref, "out": out,
-                    "opts": {"sync_marker": b"\x02" * 16, "sync_interval": ch.pick([1, 16000]), "codec": ch.pick(["null", "deflate"])}}
+            d = {"op": "writer_handle", "action": "create", "schema": sref, "out": out,
+                 "opts": {"sync_marker": b"\x02" * 16, "sync_interval": ch.pick([1, 16000]), "codec": ch.pick(["null", "deflate"])}}
+            if ch.chance(30):
+                d["meta"] = ch.pick(["M0", "M1"])
+                self.ctx.probe("metadata_argument")
+            return d
         if k == 12:
             self.ctx.probe("load_call")
             if ch.chance(60):
@@ -420,8 +431,17 @@ class History:
                 out = self.new("C")
                 self.bytes_.append((out, b[1], "c", b[3]))
                 self.ctx.probe("append_call")
-                return {"op": "cappend", "bytes": b[0], "schema": sref, "records": rname, "out": out,
-                        "opts": {"codec": ch.pick(["null", "deflate"]), "sync_interval": ch.pick([1, 16000])}}
+                d = {"op": "cappend", "bytes": b[0], "schema": sref, "records": rname, "out": out,
+                     "opts": {"codec": ch.pick(["null", "deflate"]), "sync_interval": ch.pick([1, 16000])}}
+                if ch.chance(30):
+                    d["meta"] = ch.pick(["M0", "M1"])
+                    self.ctx.probe("metadata_argument")
+                return d
+        if k == 15:
+            # the caller edits one of its raw schema objects in place (adds a defaulted field / a symbol /
+            # a branch): later calls must see the schema as it is now, not a remembered earlier shape
+            self.ctx.probe("schema_edited_in_place")
+            return {"op": "edit", "target": "S_" + key, "tag": self.new("e")}
         # fallback: parse
         out = self.new("P")
         self.parsed.append((out, key, None))
@@ -432,7 +452,7 @@ READ_OPTS = [{"return_record_name": True}, {"return_record_name": True, "return_
              {"return_named_type": True}, {"return_named_type": True, "return_named_type_override": True},
              {"handle_unicode_errors": "ignore"}]
 
-REF_KEYS = ("schema", "datum", "records", "bytes", "reader", "text", "handle", "into")
+REF_KEYS = ("schema", "datum", "records", "bytes", "reader", "text", "handle", "into", "meta", "target")
 
 
 def uses_of(d):
@@ -454,6 +474,8 @@ def defines_of(d):
             out.append(d["out"] + ".fo")
     if d.get("into"):
         out.append(d["into"])
+    if d["op"] == "edit":
+        out.append(d["target"])
     if d["op"] == "writer_handle" and d.get("handle"):
         out.append(d["handle"])
         out.append(d["handle"] + ".fo")
@@ -461,30 +483,36 @@ def defines_of(d):
 
 
 def slice_of(descs, k, parsed_into):
-    """Indices of the calls the k-th call depends on (transitively), in order."""
+    """Indices of the calls the k-th call depends on (transitively), in order.  Computed to a fixed
+    point: a caller-side edit of a raw schema object made AFTER that object was parsed still belongs
+    to the slice of calls using the parsed result (parse_schema may share lists with its input)."""
     need = set(uses_of(descs[k]))
-    # a parsed schema produced against a shared dictionary depends on that dictionary
-    changed = True
-    while changed:
-        changed = False
-        for n in list(need):
-            d = parsed_into.get(n)
-            if d and d not in need:
-                need.add(d)
-                changed = True
-    idx = []
-    for i in range(k - 1, -1, -1):
-        defs = defines_of(descs[i])
-        if any(x in need for x in defs):
-            idx.append(i)
-            for u in uses_of(descs[i]):
-                if u not in need:
+
+    def close():
+        changed = True
+        while changed:
+            changed = False
+            for n in list(need):
+                d = parsed_into.get(n)
+                if d and d not in need:
+                    need.add(d)
+                    changed = True
+
+    close()
+    idx = set()
+    again = True
+    while again:
+        again = False
+        for i in range(k - 1, -1, -1):
+            if i in idx:
+                continue
+            if any(x in need for x in defines_of(descs[i])):
+                idx.add(i)
+                again = True
+                for u in uses_of(descs[i]):
                     need.add(u)
-                    d = parsed_into.get(u)
-                    if d:
-                        need.add(d)
-    idx.reverse()
-    return idx
+                close()
+    return sorted(idx)
 
 
 def run_one(ch, ctx):
@@ -508,7 +536,7 @@ def _full_history_job(base, descs):
     obs = []
     tampered = None
     for i, d in enumerate(descs):
-        watch = [n for n in (d.get("schema"), d.get("datum"), d.get("records"), d.get("reader")) if isinstance(n, str) and n in E]
+        watch = [n for n in (d.get("schema"), d.get("datum"), d.get("records"), d.get("reader"), d.get("meta")) if isinstance(n, str) and n in E]
         before = {n: snapshot(E[n]) for n in watch}
         obs.append(ops.apply(F, d, E))
         for n in watch:
@@ -593,7 +621,7 @@ def _history_job(base, descs):
     obs = None
     tampered = None
     for i, d in enumerate(descs):
-        watch = [n for n in (d.get("schema"), d.get("datum"), d.get("records"), d.get("reader")) if isinstance(n, str) and n in E]
+        watch = [n for n in (d.get("schema"), d.get("datum"), d.get("records"), d.get("reader"), d.get("meta")) if isinstance(n, str) and n in E]
         before = {n: snapshot(E[n]) for n in watch}
         obs = ops.apply(F, d, E)
         if i == len(descs) - 1:
